@@ -159,7 +159,7 @@ def mkcase(rng, lat, lon, order=None, rx=None):
         rx = [max(-90.0, min(90.0, rlat)), rlon]
     o = order or rng.choice(("e", "o", "="))
     base = rng.choice((0, 1446332400, rng.randrange(0, 2**31)))
-    gap = rng.choice((1, 2, 5, 9, 0.5, 0.4))
+    gap = rng.choice((1, 2, 5, 9, 0.5, 0.4, 1, 2, 30, 50, 3600, 90000))   # the statement sets no limit on the age of the pair
     te, to = (base + gap, base) if o == "e" else (base, base + gap) if o == "o" else (base, base)
     return {"p0": [lat, lon], "p1": [lat1, lon1], "rx": rx, "tc": [rng.choice((5, 6, 7, 8)), rng.choice((5, 6, 7, 8))],
             "mov": [rng.randrange(128), rng.randrange(128)], "trk": [rng.randrange(256), rng.randrange(256)],
